@@ -161,7 +161,7 @@ def search(acc: Acc, tier, shard, nshards):
         quote = ch.choice(['"', "'"])
         st_ = {}
         doc = model.any_document(model.Gen(ch, profs[quote], st_))
-        text = render.render(doc, render.Surface(ch, stats=st_)).text
+        text = render.render(doc, render.Surface(ch, stats=st_, numbers=True)).text
         counter["i"] += 1
         s = model.stats_of(doc)
         nontrivial = s["keywords"] >= 3 and any(c not in ("int", "enum") for c in s["classes"])
